@@ -422,7 +422,14 @@ func TestVerifC29Exact(t *testing.T) {
 		tickTol := int64(1)
 		if ragged {
 			listTol = time.Millisecond + 20*time.Microsecond
-			getTol = 25 * time.Microsecond // 1 tick at 48 kHz + 1 µs file name truncation, rounded up
+			// The window is applied in track ticks: the offset of the start inside the segment and the duration are
+			// converted to ticks independently (each conversion may lose up to one tick), and the segment start is
+			// known to the microsecond only. A sample closer than 2 ticks + 2 µs to a window edge may legitimately
+			// fall on either side.
+			getTol = 2*rbTickDur(rbAudioClock) + 2*time.Microsecond
+			if spec.Video != "" && rbTickDur(rbVideoClock) > rbTickDur(rbAudioClock) {
+				getTol = 2*rbTickDur(rbVideoClock) + 2*time.Microsecond
+			}
 			tickTol = 2
 		}
 
